@@ -62,12 +62,15 @@ struct VRec
 };
 static const size_t OUT_N = 1u << 22;
 static const int MAXV = 300;
+static const int MAXSHARDS = 1 << 16;
+static const int SANDBOX_ALL_AFTER = 8;  // restarts of one shard after which all of its cases are sandboxed
 struct Shm
 {
   std::atomic<long long> cnt[NCNT];
   std::atomic<int> sandbox;  // some shard died: run the risky shape classes in a sandbox
   std::atomic<int> capped;
   std::atomic<int> vlock;
+  std::atomic<int> restarts[MAXSHARDS];  // how often run_sharded had to restart each shard
   int nv;
   VRec v[MAXV];
   std::atomic<uint64_t> out[OUT_N];
@@ -209,7 +212,16 @@ static void on_signal(int sig)
   _exit(128 + sig);
 }
 
-static bool g_stop = false;  // deadline passed
+static bool g_stop = false;         // deadline passed
+static bool g_sandbox_all = false;  // this shard keeps dying: sandbox every case
+static void shard_begin(int shard, long long resume_after)
+{
+  if (resume_after < 0)
+    return;
+  G->sandbox.store(1);
+  if (shard < MAXSHARDS && G->restarts[shard].fetch_add(1) + 1 >= SANDBOX_ALL_AFTER)
+    g_sandbox_all = true;
+}
 static void open_worker_file(const std::string &tag)
 {
   if (!vr::replaying() && vr::deadline_passed())
@@ -315,11 +327,58 @@ static int judge_totality(const std::string &bytes, const std::string &cls, cons
 static long long g_tick = 0;
 static void tick()
 {
-  alarm(20);  // hang oracle: no case may take this long
+  alarm(10);  // hang oracle: no case may take this long
   if ((++g_tick & 255) == 0 && vr::deadline_passed()) {
     g_stop = true;
     G->capped.store(1);
   }
+}
+
+// Runs body() in a forked child of its own; a death is recorded as a violation of class
+// "<sigctx>|<how it died>" (same form as run_sharded uses).  The child reports through the shared
+// accumulators only.
+static void in_sandbox(const std::string &sigctx, const std::string &replay, const std::string &prov, const std::function<void()> &body)
+{
+  cnt(C_SANDBOXED);
+  pid_t pid = fork();
+  if (pid < 0) {
+    perror("fork");
+    _exit(4);
+  }
+  if (pid == 0) {
+    int efd = open(g_err.c_str(), O_WRONLY | O_CREAT | O_TRUNC, 0600);
+    if (efd >= 0) {
+      dup2(efd, 2);
+      close(efd);
+    }
+    alarm(10);
+    body();
+    _exit(0);
+  }
+  int status = 0;
+  while (waitpid(pid, &status, 0) < 0 && errno == EINTR) {
+  }
+  if (WIFEXITED(status) && WEXITSTATUS(status) == 0)
+    return;
+  std::string err;
+  FILE *f = fopen(g_err.c_str(), "r");
+  if (f) {
+    char b[4096];
+    size_t k;
+    while ((k = fread(b, 1, sizeof b, f)) > 0 && err.size() < 65536)
+      err.append(b, k);
+    fclose(f);
+  }
+  std::string how = vr::classify_death(status, err);
+  size_t ep = err.find("ERROR");
+  if (ep == std::string::npos)
+    ep = 0;
+  std::string first = err.substr(ep, err.find('\n', ep) - ep);
+  if (first.size() > 200)
+    first.resize(200);
+  cnt(C_CRASHED_SANDBOX);
+  shm_outcome("D:" + how);
+  shm_violation(sigctx + "|" + how, replay, "case died: " + how + " :: " + first + " " + prov);
 }
 
 // One totality case with crash attribution.  `index` is the case's position in the shard.
@@ -334,48 +393,14 @@ static void totality_case(long long index, const std::string &bytes, const std::
   cnt(C_MAXLEN, (long long)bytes.size());
   if (ic != c16::IC_OTHER)
     cnt(C_OPENCLASS);
-  bool sandbox = ic != c16::IC_OTHER && G->sandbox.load(std::memory_order_relaxed) && !vr::replaying();
+  bool sandbox = ((ic != c16::IC_OTHER && G->sandbox.load(std::memory_order_relaxed)) || g_sandbox_all) && !vr::replaying();
   if (sandbox) {
-    cnt(C_SANDBOXED);
-    pid_t pid = fork();
-    if (pid < 0) {
-      perror("fork");
-      _exit(4);
-    }
-    if (pid == 0) {
-      int efd = open(g_err.c_str(), O_WRONLY | O_CREAT | O_TRUNC, 0600);
-      if (efd >= 0) {
-        dup2(efd, 2);
-        close(efd);
-      }
-      alarm(20);
+    in_sandbox("readXML|" + cls, replay, prov, [&]() {
       xml::XMLDoc doc;
       std::string what;
       int r = judge_totality(bytes, cls, replay, prov, doc, what);
       shm_outcome(r == R_RETURNED ? "R:" + node_str(doc) : "T:" + what);
-      _exit(0);
-    }
-    int status = 0;
-    while (waitpid(pid, &status, 0) < 0 && errno == EINTR) {
-    }
-    if (!(WIFEXITED(status) && WEXITSTATUS(status) == 0)) {
-      std::string err;
-      FILE *f = fopen(g_err.c_str(), "r");
-      if (f) {
-        char b[4096];
-        size_t k;
-        while ((k = fread(b, 1, sizeof b, f)) > 0 && err.size() < 65536)
-          err.append(b, k);
-        fclose(f);
-      }
-      std::string how = vr::classify_death(status, err);
-      std::string first = err.substr(0, err.find('\n'));
-      if (first.size() > 200)
-        first.resize(200);
-      cnt(C_CRASHED_SANDBOX);
-      shm_outcome("D:" + how);
-      shm_violation("readXML|" + cls + "|" + how, replay, "case died: " + how + " :: " + first + " " + prov);
-    }
+    });
     return;
   }
   xml::XMLDoc doc;
@@ -395,8 +420,7 @@ static void totality_case(long long index, const std::string &bytes, const std::
 // ------------------------------------------------------------------------------ (i) all byte strings
 static void bytes_shard(int shard, long long resume_after, int L)
 {
-  if (resume_after >= 0)
-    G->sandbox.store(1);
+  shard_begin(shard, resume_after);
   open_worker_file("b" + std::to_string(shard));
   long long index = 0;
   auto one = [&](const std::string &s) {
@@ -467,17 +491,28 @@ static std::string doc_class(const c16::Gen &g, int family, int header)
   return "layout " + std::to_string(g.layout) + (header ? ", header" : ", no header") + (g.pattern ? ", comments" : ", no comments");
 }
 
+static void tree_core(c16::Choices &c, c16::Gen &g, const std::string &cls, const std::string &replay);
+
 static void tree_case(long long index, c16::Choices &c, c16::Gen &g)
 {
   std::string replay = "tree:" + c.str();
   int family = c.digit[0], header = family == 0 ? c.digit[1] : 0;
   std::string cls = doc_class(g, family, header);
-  vr::begin_case(index, "readXML|document of the supported subset (" + cls + ")", replay);
+  std::string sigctx = "readXML|document of the supported subset (" + cls + ")";
+  vr::begin_case(index, sigctx, replay);
   tick();
   cnt(C_STATES);
   cnt(C_DOCS);
   cnt(C_TRANS);
   cnt(C_MAXLEN, (long long)g.doc.size());
+  if (g_sandbox_all && !vr::replaying())
+    in_sandbox(sigctx, replay, "", [&]() { tree_core(c, g, cls, replay); });
+  else
+    tree_core(c, g, cls, replay);
+}
+
+static void tree_core(c16::Choices &c, c16::Gen &g, const std::string &cls, const std::string &replay)
+{
   xml::XMLDoc doc;
   std::string what;
   int r = judge_totality(g.doc, cls, replay, "", doc, what);
@@ -557,8 +592,7 @@ static TreeShards tree_shards(const c16::Params &P)
 
 static void trees_shard(const TreeShards &ts, int shard, long long resume_after)
 {
-  if (resume_after >= 0)
-    G->sandbox.store(1);
+  shard_begin(shard, resume_after);
   open_worker_file("t" + std::to_string(shard));
   c16::Choices c;
   c.digit = ts.prefix(shard);
@@ -588,8 +622,7 @@ static const int DOCS_PER_SHARD = 32;
 
 static void mutations_shard(const std::vector<BaseDoc> &docs, int shard, long long resume_after)
 {
-  if (resume_after >= 0)
-    G->sandbox.store(1);
+  shard_begin(shard, resume_after);
   open_worker_file("m" + std::to_string(shard));
   size_t lo = (size_t)shard * DOCS_PER_SHARD, hi = std::min(docs.size(), lo + DOCS_PER_SHARD);
   for (size_t j = lo; j < hi && !g_stop; j++) {
@@ -681,7 +714,7 @@ int main(int argc, char **argv)
     return 3;
   }
   if (vr::replaying()) {
-    alarm(20);
+    alarm(10);
     int rc = replay_one(vr::S().replay);
     return rc;
   }
@@ -699,7 +732,7 @@ int main(int argc, char **argv)
     TreeShards ts = tree_shards(th ? c16::params_thorough() : c16::params_quick());
     vr::run_sharded(ts.total(), [&](int shard, long long resume) { trees_shard(ts, shard, resume); });
   } else if (part == "mutations") {
-    const size_t B = maxbytes > 0 ? (size_t)maxbytes : th ? 60 : 40;
+    const size_t B = maxbytes > 0 ? (size_t)maxbytes : th ? 60 : 36;
     std::vector<BaseDoc> docs;
     {
       c16::Choices c;
